@@ -30,12 +30,14 @@ func nft3(name string, props map[string]bool, sc NftScenario, probe string) *Pkt
 // CheckC04: NFT transfers never duplicate an NFT or release escrow to the wrong claimant.
 func modelsC04(tier string) ([]*PktModel, []int) {
 	props := map[string]bool{"C04": true}
-	adv := []string{"nft/" + A + "/" + B + "/cls", "nft/" + A + "/" + C + "/cls", "nftcls", "nft/x/y", "nftx/" + A + "/" + B + "/cls", "nftx/" + A + "/" + C + "/cls"}
+	adv := []string{"cls", "nft/" + A + "/" + B + "/cls", "nft/" + A + "/" + C + "/cls", "nftcls", "nft/x/y", "nftx/" + A + "/" + B + "/cls", "nftx/" + A + "/" + C + "/cls"}
 	models := []*PktModel{
 		nft3("nft3-honest", props, NftScenario{MaxUserTx: 4, Receivers: []int{1}, BadReceiver: true}, ""),
 		nft3("nft3-adversarial-class", props, NftScenario{MaxUserTx: 4, Receivers: []int{1}, AdvClasses: adv, AdvChains: []string{B}, MaxAdv: 1, MintInto: true}, ""),
+		// every held token is also offered for transfer by the user who does not own it
+		nft3("nft3-not-owner", props, NftScenario{MaxUserTx: 3, Receivers: []int{1}, Thieves: true}, ""),
 	}
-	depth := []int{9, 8}
+	depth := []int{9, 8, 7}
 	if tier == "thorough" {
 		// the quick scenarios explored deeper, then the same two with a wider alphabet (second receiver, relay routes,
 		// burns, adversarial classes on two chains)
@@ -43,7 +45,7 @@ func modelsC04(tier string) ([]*PktModel, []int) {
 			nft3("nft3-honest-wide", props, NftScenario{MaxUserTx: 5, Receivers: []int{1, 2}, BadReceiver: true, Relays: true, Burns: true}, ""),
 			nft3("nft3-adversarial-class-wide", props, NftScenario{MaxUserTx: 5, Receivers: []int{1}, Relays: true, AdvClasses: adv, AdvChains: []string{B, C}, MaxAdv: 2, MintInto: true}, ""),
 		)
-		depth = []int{14, 12, 10, 8}
+		depth = []int{14, 12, 9, 10, 8}
 	}
 	return models, depth
 }
